@@ -1,7 +1,6 @@
 from __future__ import absolute_import, division, print_function
 
 import itertools
-import operator
 
 from petl.comparison import Comparable, comparable_itemgetter
 from petl.compat import next, text_type
@@ -759,8 +758,8 @@ def iterlookupjoin(left, right, lkey, rkey, missing=None, lprefix=None,
     rkind = asindices(rhdr, rkey)
 
     # construct functions to extract key values from both tables
-    lgetk = operator.itemgetter(*lkind)
-    rgetk = operator.itemgetter(*rkind)
+    lgetk = comparable_itemgetter(*lkind)
+    rgetk = comparable_itemgetter(*rkind)
 
     # determine indices of non-key fields in the right table
     # (in the output, we only include key fields from the left table - we
@@ -802,12 +801,21 @@ def iterlookupjoin(left, right, lkey, rkey, missing=None, lprefix=None,
     lrowgrp = []
 
     # loop until *either* of the iterators is exhausted
-    lkval, rkval = None, None  # initialise here to handle empty tables
+    # initialise here to handle empty tables
+    lkval, rkval = Comparable(None), Comparable(None)
     try:
 
         # pick off initial row groups
         lkval, lrowgrp = next(lgit)
-        rkval, rrowgrp = next(rgit)
+        try:
+            rkval, rrowgrp = next(rgit)
+        except StopIteration:
+            # no rows on the right, so put the left group back to be yielded
+            # with the rest (its key may be None, which cannot be told apart
+            # from the initial value of rkval)
+            lgit = itertools.chain([(lkval, lrowgrp)], lgit)
+            lkval = rkval
+            raise
 
         while True:
             if lkval < rkval:
